@@ -9,6 +9,7 @@ spec's total `seconds`, not with the range-limited `fromTimespec`: `DateTime::ne
 import TzVerif.Model.Find
 import TzVerif.Spec.Calendar
 import TzVerif.Proofs.Zoned
+import TzVerif.Proofs.SrcEqZone
 
 namespace TzVerif.C14
 open TzVerif.Model TzVerif.Gen TzVerif.Proofs
@@ -80,5 +81,25 @@ theorem ordering (a b : DateTime) :
 /-- non-vacuity: 23:59:60 at +01:00 on the last day of year i32::MAX is accepted and satisfies the invariant -/
 example : (DateTime.new 2147483647 12 31 23 59 60 0 { utOffset := 3600, isDst := false, name := none }).isOk = true := by
   decide
+
+/-! ### The same about the source text
+`TzVerif.Src.*` is the Rust source translated to Lean on every run (tools/rs2lean.py, DESIGN §13); the
+equalities below tie every theorem of this file, which is about the model, to the code as it is now. -/
+
+theorem translated_source_is_the_model :
+    (∀ y mo d h mi s ns l, Src.DateTime.new y mo d h mi s ns l = DateTime.new y mo d h mi s ns l) ∧
+    (∀ u ns l, Src.DateTime.from_timespec_and_local u ns l = DateTime.fromTimespecAndLocal u ns l) ∧
+    (∀ u ns (z : TimeZone), Src.DateTime.from_timespec u ns z = DateTime.fromTimespec u ns z) ∧
+    (∀ (d : DateTime) (z : TimeZone), Src.DateTime.project d z = d.project z) ∧
+    (∀ (c : UtcDateTime) (z : TimeZone), Src.UtcDateTime.project c z = c.project z) :=
+  ⟨SrcEq.dt_new_eq, SrcEq.dt_from_timespec_and_local_eq, SrcEq.dt_from_timespec_eq, SrcEq.dt_project_eq, SrcEq.utc_project_eq⟩
+
+theorem new_correct_src (y mo d h mi s ns : Int) (l : LocalTimeType) :
+    Src.DateTime.new y mo d h mi s ns l = dtNewExpected y mo d h mi s ns l := by
+  rw [SrcEq.dt_new_eq]; exact new_correct y mo d h mi s ns l
+
+theorem projection_src (d : DateTime) (z : TimeZone) (x : DateTime) (hx : Src.DateTime.project d z = .ok x) :
+    Inv x ∧ x.unixTime = d.unixTime ∧ x.nanoseconds = d.nanoseconds ∧ d.beq x = true ∧ d.cmp x = 0 :=
+  projection d z x (SrcEq.dt_project_eq d z ▸ hx)
 
 end TzVerif.C14
